@@ -1,13 +1,17 @@
 """C23  Java string literals denote exactly the original string  (engine E1: finite-domain product).
 
 Code under test: `androguard.decompiler.writer.string(s)` -- the function `Writer.visit_constant` uses to print every
-const-string operand -- and `Writer.visit_constant` itself on a bare Writer (no DEX generator exists, so
-`DvMethod.get_source` is not driven).
+const-string operand --, `Writer.visit_constant` itself on a bare Writer, and end to end through a generated DEX
+(gen/dexgen.py): const-string and const-string/jumbo operands in `DvMethod.get_source()` and static String field
+initialisers in `DvClass.get_source()` (decompile.py prints those with a different escaper than writer.string).
 
 Space
   * every code point 0..0x10FFFF (surrogates included) as a one-character string            -> string()
   * every ordered pair over the 40-character boundary alphabet ALPHA                          -> string(), visit_constant
   * thorough: every ordered triple over ALPHA                                                 -> string()
+  * generated DEX: "", the 40 alphabet singles, all 1600 ordered pairs and ~215 spread single code points (incl.
+    non-BMP) as const-string, const-string/jumbo operands and as static String field initialisers
+                                                          -> DvMethod.get_source(), DvClass.get_source()
 Oracle: ref/javalex.py (JLS 3.3 unicode-escape translation with backslash parity, then JLS 3.10.5/3.10.7 escape
 sequences and the well-formedness of the literal) reads the produced text back to UTF-16 code units, which must equal
 the input's code units (`s.encode('utf-16-le', 'surrogatepass')`).
@@ -21,9 +25,11 @@ A disagreement there is a HARNESS error (the model is wrong), never a property v
 specification dialect of the model; the two places where javac 17 is observed to deviate from the specification are
 modelled / excluded for the binding only and reported in the evidence notes.
 
-Keys (input side): single:<class of the code point>, pair:<classA>+<classB>, triple:<A>+<B>+<C>.  A pair/triple that
-contains a character whose one-character string is already mis-written is not reported again (counted as
-`subsumed_by_single`), so one root cause in one character class gives one key.
+Keys (input side): single:<class of the code point>, pair:<classA>+<classB>, triple:<A>+<B>+<C>, prefixed by the path
+when it is not string(): visit_constant:, dex-const-string:, dex-const-string-jumbo:, field-init:.  A pair/triple that
+contains a character whose one-character string is already mis-written on the same path is not reported again
+(counted as `subsumed_by_single`), and a DEX const-string case that string() itself already mis-writes is counted as
+`subsumed_by_string`, so one root cause in one character class gives one key per path.
 """
 import itertools
 import os
@@ -38,7 +44,9 @@ from ref import javalex
 PROPERTY = "C23"
 LEVEL = "exploration"
 RULE = ("writer.string(chr(cp)) for every code point 0..0x10FFFF; every ordered pair (thorough: and triple) over a "
-        "40-character boundary alphabet through string() and Writer.visit_constant; each literal read back by a "
+        "40-character boundary alphabet through string() and Writer.visit_constant; the alphabet singles, all pairs and "
+        "~215 spread code points as const-string(/jumbo) operands and static String field initialisers of a generated DEX "
+        "through DvMethod/DvClass.get_source(); each literal read back by a "
         "JLS lexer model that is itself checked against javac/java on all distinct BMP, pair and token-sequence "
         "literals; non-trivial = the literal needs an escape (input is not a plain printable ASCII character other than "
         "quote/backslash); distinct by input string (enumeration index)")
@@ -46,8 +54,8 @@ ASSUMPTIONS = [
     "ref/javalex.py is the trusted reading of a literal; it is bound to JDK 17 javac on every distinct literal text of "
     "the BMP/pair sets and on an exhaustive token-sequence exerciser, non-BMP one-character literals only at plane "
     "boundaries (the writer treats every non-BMP code point by the same arithmetic)",
-    "DvMethod.get_source on a generated DEX is not driven (no DEX generator); Writer.visit_constant is called on a bare "
-    "Writer instead",
+    "gen/dexgen.py (independent DEX writer incl. its MUTF-8 encoder, conformance-checked) is trusted for the DEX paths; "
+    "a wrong string decoded from the DEX (property C06) would surface here as a C23 violation on the dex-* paths",
     "a raw unpaired surrogate in a literal denotes itself (UTF-16 input units); such texts cannot be stored in a source "
     "file and are left out of the javac binding",
 ]
@@ -60,8 +68,9 @@ MANIFEST = {
             "rules (unicode-escape translation first, then string escapes); the denoted UTF-16 code units must be the "
             "input's.  Complete for the stated space; the lexer model is itself compared with the real javac on every "
             "distinct literal it has to read for the BMP and pair sets.",
-    "note": "Trusted: ref/javalex.py (bound to javac 17 in both tiers) and the JDK. get_source on a generated DEX is not "
-            "exercised; the writer entry point visit_constant is.",
+    "note": "Trusted: ref/javalex.py (bound to javac 17 in both tiers), the JDK, and gen/dexgen.py for the paths that go "
+            "through a generated DEX (const-string operands in DvMethod.get_source, static String field initialisers in "
+            "DvClass.get_source; alphabet singles, all pairs, ~215 spread code points).",
 }
 
 ALPHA = ['"', "'", "\\", "u", "U", "0", "1", "2", "3", "4", "5", "6", "7", "8", "9", "a", "f", "b", "n", "s",
@@ -79,6 +88,8 @@ N_JEXER = 4
 def space(ctx):
     return {"single_code_points": [0, 0x10FFFF], "alphabet": ["U+%04X" % ord(c) for c in ALPHA],
             "tuples_over_alphabet": [2, 3] if ctx.thorough else [2],
+            "generated_dex": {"strings": len(dex_strings()), "paths": list(DEX_PATHS),
+                              "spread_code_points": ["U+%04X" % c for c in spread_code_points()][:12] + ["..."]},
             "javac_bound": ["all BMP one-char literals", "pair literals"] + (["triple literals"] if ctx.thorough else [])
             + ["non-BMP plane-boundary samples", "all sequences of <=3 tokens over %r" % TOKENS,
                "all sequences of <=%d tokens over %r" % (7 if ctx.thorough else 6, BS_TOKENS)]}
@@ -136,14 +147,18 @@ def _fns():
 
 
 def judge(fn, s):
-    """None if fn(s) is a literal denoting s, else (literal_or_None, message).  Shared by run_shard and replay."""
-    want = javalex.utf16_units(s)
+    """(literal, None) if fn(s) is a literal denoting s, else (literal_or_None, message).  Shared by run_shard and replay."""
     try:
         lit = fn(s)
     except Exception as e:      # noqa
         return None, "raised %s: %s" % (type(e).__name__, e)
     if not isinstance(lit, str):
         return None, "returned %r" % (lit,)
+    return judge_lit(lit, s)
+
+
+def judge_lit(lit, s):
+    want = javalex.utf16_units(s)
     try:
         got = javalex.read_string_literal(lit, "jls")       # the statement's "Java's lexical rules" = the specification
     except javalex.JavaLexError as e:
@@ -188,6 +203,127 @@ def check_tuple(fns, fname, chars, acc):
                           {"kind": kind, "fn": fname, "cps": [ord(c) for c in chars]},
                           "%s(%s): %s" % (fname, ascii(s), bad))
     return lit
+
+
+# ---------------------------------------------------------------------------------- generated DEX paths
+DEX_PATHS = ("dex-const-string", "dex-const-string-jumbo", "field-init")
+N_DEX = 16
+
+
+def spread_code_points():
+    s = set(range(0x11, 0x110000, 5519))
+    s |= {0x7e, 0x7f, 0x80, 0xa0, 0xff, 0x100, 0x7ff, 0x800, 0x2028, 0xd7ff, 0xe000, 0xfffe, 0xffff, 0x10000, 0x1f600, 0x10ffff}
+    return sorted(c for c in s if not 0xD800 <= c <= 0xDFFF and chr(c) not in ALPHA)
+
+
+def dex_strings():
+    """Everything but the alphabet singles (those are in every DEX, they decide subsumption)."""
+    return [""] + [a + b for a in ALPHA for b in ALPHA] + [chr(c) for c in spread_code_points()]
+
+
+class DexRenderError(Exception):
+    pass
+
+
+def _between(text, start, nxt, what):
+    i = text.find(start)
+    if i < 0:
+        raise DexRenderError("marker %r not found in the decompiled source (%s)" % (start, what))
+    j = text.find(nxt, i + len(start))
+    if j < 0:
+        raise DexRenderError("marker %r not found after %r (%s)" % (nxt, start, what))
+    return text[i + len(start):j]
+
+
+def dex_render(strings):
+    """Build one class holding `strings` as const-string / const-string/jumbo operands and as static String field
+    initialisers, decompile it, and cut out the literal printed for each.  -> {path: [literal text per string]}"""
+    from gen import dalvik as D, dexgen as G
+    from androguard.core import dex
+    from androguard.core.analysis.analysis import Analysis
+    from androguard.decompiler.decompile import DvClass, DvMethod
+    n = len(strings)
+
+    def body(op, sink):
+        def f(ix):
+            b = b""
+            for i, s in enumerate(strings):
+                b += D.enc("const/16", 1, i) + D.enc(op, 0, ix.string(s))
+                b += D.enc("invoke-static", ix.method("LK;", sink, "V", ("I", "Ljava/lang/String;")), [1, 0])
+            return b + D.enc("return-void")
+        return f
+    st = G.ACC_STATIC | G.ACC_PUBLIC
+    c = G.Class("Lp/S;", sfields=[G.Field("f%04d" % i, "Ljava/lang/String;", st) for i in range(n)],
+                static_values=[G.EV("string", s) for s in strings],
+                dmethods=[G.Method("ka", "V", (), st, G.Code(2, 0, 2, body("const-string", "use"))),
+                          G.Method("kb", "V", (), st, G.Code(2, 0, 2, body("const-string/jumbo", "usj")))])
+    vm = dex.DEX(G.build(G.Dex([c])))
+    dc = DvClass(vm.get_classes()[0], Analysis(vm))
+    dc.process()
+    src = dc.get_source()
+    out = {p: [] for p in DEX_PATHS}
+    msrc = {m.name: m.get_source() for m in dc.methods if isinstance(m, DvMethod)}
+    for path, mname, sink in (("dex-const-string", "ka", "use"), ("dex-const-string-jumbo", "kb", "usj")):
+        text = msrc.get(mname)
+        if text is None:
+            raise DexRenderError("method %s was not decompiled" % mname)
+        for i in range(n):
+            nxt = "K.%s(%d, " % (sink, i + 1) if i + 1 < n else "return;"
+            t = _between(text, "K.%s(%d, " % (sink, i), nxt, path).rstrip()
+            if not t.endswith(");"):
+                raise DexRenderError("call %d of %s does not end in ');': %r" % (i, path, t[-20:]))
+            out[path].append(t[:-2])
+    for i in range(n):
+        nxt = "    public static String f%04d" % (i + 1) if i + 1 < n else "\n    public static void k"
+        t = _between(src, "String f%04d = " % i, nxt, "field-init").rstrip()
+        if not t.endswith(";"):
+            raise DexRenderError("field initialiser %d does not end in ';': %r" % (i, t[-20:]))
+        out["field-init"].append(t[:-1])
+    return out
+
+
+def check_dex(fns, strings, acc, count_singles=True, only=None):
+    """Judge `strings` (alphabet singles are added, they decide subsumption) on the three DEX paths."""
+    singles = list(ALPHA)
+    allstr = singles + [s for s in strings if s not in ALPHA]
+    try:
+        lits = dex_render(allstr)
+    except DexRenderError as e:
+        acc.harness_error("generated DEX could not be read back from the source: %s" % e)
+        return {}
+    except Exception as e:      # noqa
+        acc.violation("dex:raises", {"kind": "dex", "path": "any", "strs": [[ord(c) for c in s] for s in strings]},
+                      "decompiling a class with %d string constants raised %s: %s" % (len(allstr), type(e).__name__, e))
+        return {}
+    for path in DEX_PATHS:
+        if only and path != only:
+            continue
+        verdict = {}
+        for s, lit in zip(allstr, lits[path]):
+            verdict[s] = judge_lit(lit, s)
+        for k, s in enumerate(allstr):
+            if k < len(singles) and not count_singles:
+                continue
+            acc.n += 1
+            if not _trivial(s) or s == "":
+                acc.nt_disjoint += 1
+            acc.outcomes.add(hash((path, verdict[s][0])))
+            bad = verdict[s][1]
+            if not bad:
+                continue
+            if len(s) > 1 and any(verdict[c][1] for c in s):
+                acc.count("subsumed_by_single")
+            elif path != "field-init" and judge(fns["string"], s)[1]:
+                acc.count("subsumed_by_string")
+            else:
+                # in a DEX (MUTF-8) a high+low surrogate pair and the supplementary character are the same constant
+                norm = s.encode("utf-16-le", "surrogatepass").decode("utf-16-le", "surrogatepass")
+                kind = {0: "empty", 1: "single", 2: "pair"}.get(len(norm), "tuple")
+                shape = cls(norm) if len(norm) == 1 else "+".join(cls_ctx(c) for c in norm)
+                acc.violation("%s:%s%s" % (path, kind, ":" + shape if shape else ""),
+                              {"kind": "dex", "path": path, "cps": [ord(c) for c in s]},
+                              "%s of a generated DEX, constant %s: %s" % (path, ascii(s), bad))
+    return lits
 
 
 # ---------------------------------------------------------------------------------- javac binding
@@ -377,11 +513,12 @@ def nonbmp_samples():
 def shards(ctx):
     s = [("jexer", i) for i in range(N_JEXER)]          # the javac-bound shards first: they are the longest
     s += [("jbmp", i) for i in range(N_JBMP)]
-    s += [("jpairs",)]
+    s += [("jpairs",), ("jfield",)]
     if ctx.thorough:
         s += [("jtriples", i) for i in range(0, 40, 5)]
     s += [("single", i) for i in range(N_SINGLE)]
     s += [("pairs", i) for i in range(0, 40, 5)]
+    s += [("dex", i) for i in range(N_DEX)]
     if ctx.thorough:
         s += [("triples", i) for i in range(40)]
     return s
@@ -416,6 +553,13 @@ def run_shard(ctx, shard):
             for c in ALPHA:
                 lit = check_tuple(fns, "string", (a, b, c), acc)
                 acc.outcomes.add(hash(lit))
+    elif kind == "dex":
+        lits = check_dex(fns, dex_strings()[shard[1]::N_DEX], acc, count_singles=shard[1] == 0)
+        if shard[1] == 0 and lits:
+            k = len(ALPHA)        # the empty string is the first non-alphabet entry of shard 0
+            acc.sample({"input": "U+0022 (one-character string) in a generated DEX",
+                        "const-string": lits["dex-const-string"][0], "field-init": lits["field-init"][0],
+                        "empty string field-init": lits["field-init"][k]})
     elif not have_javac():
         acc.harness_error("javac/java not found: the lexer model cannot be bound to the compiler")
     elif kind == "jbmp":
@@ -430,6 +574,12 @@ def run_shard(ctx, shard):
         lits = [judge(fns[f], a + b)[0] for a in ALPHA for b in ALPHA for f in ("string", "visit_constant")]
         lits += [judge(fns["string"], chr(cp))[0] for cp in nonbmp_samples()]
         bind(acc, [l for l in lits if l is not None], "pairs + non-BMP samples")
+    elif kind == "jfield":
+        acc2 = Acc()
+        lits = check_dex(fns, dex_strings(), acc2)
+        acc.harness_errors += acc2.harness_errors
+        if lits:
+            bind(acc, lits["field-init"] + lits["dex-const-string"], "field initialisers / const-string of a generated DEX")
     elif kind == "jtriples":
         lits = [judge(fns["string"], a + b + c)[0] for a in ALPHA[shard[1]:shard[1] + 5] for b in ALPHA for c in ALPHA]
         bind(acc, [l for l in lits if l is not None], "triples %d" % shard[1])
@@ -443,6 +593,13 @@ def replay(ctx, w):
     acc = Acc()
     if w["kind"] == "single":
         check_single(fns, w["cps"][0], acc)
+    elif w["kind"] == "dex":
+        strs = ["".join(chr(c) for c in x) for x in (w["strs"] if "strs" in w else [w["cps"]])]
+        check_dex(fns, strs, acc, only=None if w["path"] == "any" else w["path"])
+        if acc.harness_errors:
+            return "; ".join(acc.harness_errors)
+        hit = [v["msg"] for k, v in acc.viol.items() if k == "dex:raises" or v["witness"].get("cps") == w.get("cps")]
+        return "; ".join(hit) if hit else None
     else:
         check_tuple(fns, w["fn"], tuple(chr(c) for c in w["cps"]), acc)
     if acc.viol:
@@ -484,7 +641,7 @@ def finalize(ctx, acc):
                              (lambda s: '"\\u0022"', '"', True), (lambda s: '"\\u005c\\u005c"', "\\", False)):
         if bool(judge(fn, s)[1]) != must_fire:
             acc.harness_error("oracle self-test on %s: fired=%r" % (ascii(s), not must_fire))
-    want_n = 0x110000 + 2 * 1600 + (64000 if ctx.thorough else 0)
+    want_n = 0x110000 + 2 * 1600 + (64000 if ctx.thorough else 0) + 3 * (len(ALPHA) + len(dex_strings()))
     if acc.n != want_n:
         acc.harness_error("evaluations %d != size of the stated space %d" % (acc.n, want_n))
     if len(acc.outcomes) < 1000:
@@ -502,4 +659,5 @@ def finalize(ctx, acc):
              "surrogate followed by a backslash javac mis-pairs backslashes and rejects e.g. \"\\ud800\\\\\\u0000\", which "
              "HEAD's writer emits for the string U+D800 U+005C U+0000 (such literals are excluded from the binding and "
              "counted in javac_binding_excluded_known_javac_surrogate_defect)")
-    acc.note("DvMethod.get_source on a generated DEX not driven (no DEX generator); Writer.visit_constant on a bare Writer is")
+    if not acc.extra.get("shards:dex"):
+        acc.harness_error("no generated-DEX shard ran")
